@@ -54,6 +54,7 @@ def spec_st(draw, max_n=7, min_workers=1):
         screen=draw(st.sampled_from([0, 0, 1, 3])), pattern=draw(st.sampled_from([False, False, True])),
         # QuanTIS zero swaps ([0-] on its own engine section); not together with lambda_-1 (the configuration check forbids it)
         quantis=(lm1 is None and ens_engs is None and draw(st.sampled_from([False, False, False, True]))),
+        int_toml=(origin in (0.5, 1.5) and draw(st.booleans())),  # with a half-integer origin the interfaces are whole numbers: written as TOML integers
     )
 
 
